@@ -1995,6 +1995,8 @@ pub enum LStep10 {
 struct Change {
     t_us: u64,
     seq: u64,
+    /// event sequence number when the publish / remove returned
+    seq_end: u64,
     k: u8,
     md5: String,
 }
@@ -2057,19 +2059,74 @@ pub async fn exec_c10(script: Value) -> ExecResult {
     let lrecs: LRc<RefCell<Vec<LRec>>> = LRc::new(RefCell::new(vec![]));
     let mut digest = 0u64;
     let r: VResult<()> = async {
-        let n = start_node(&root, 1, true, None, &cfg.node).await.map_err(|e| Violation::new("harness.start", e.to_string()))?;
-        vensure!(wait_leader(&n, 20_000).await.is_some(), &format!("{}.no_leader", id), "single node did not become leader");
-        advance(16_000).await;
+        // 3-node variant: every client (listeners, subscribers, publishers) talks to one follower, so that a
+        // publish is forwarded to the leader, kept as a temporary value and reported when the entry applies locally
+        let cluster = cfg.nodes > 1;
+        let n = if cluster {
+            cluster_up(&root, &cfg, id).await?;
+            let at = script["at"].as_u64().unwrap_or(2);
+            let leader = majority_leader().unwrap_or(1);
+            let at = if at == leader { (1..=cfg.nodes).find(|x| *x != leader).unwrap_or(at) } else { at };
+            sim::count("probe.clients_on_follower", 1);
+            node(at).ok_or_else(|| Violation::new("harness.start", "client node missing".to_string()))?
+        } else {
+            let n = start_node(&root, 1, true, None, &cfg.node).await.map_err(|e| Violation::new("harness.start", e.to_string()))?;
+            vensure!(wait_leader(&n, 20_000).await.is_some(), &format!("{}.no_leader", id), "single node did not become leader");
+            advance(16_000).await;
+            n
+        };
         let app = LRc::new(api_app!(n));
         let mut cur: BTreeMap<u8, Option<String>> = BTreeMap::new();
         let mut changes: Vec<Change> = vec![];
         let mut uniq = 0u64;
         // subscriptions: client -> key -> (from seq, until seq)
         let mut subs: BTreeMap<(u8, u8), (u64, Option<u64>)> = BTreeMap::new();
-        let mut sub_windows: Vec<(u8, u8, u64, u64)> = vec![];
+        let mut sub_windows: Vec<(u8, u8, u64, u64, u64)> = vec![];
         let mut handles = vec![];
         let mut notif_done = 0usize;
         let data_id = |k: u8| DATA_IDS[(k % 4) as usize];
+        // what an SDK does on a change notification: query the key and listen again with the md5 it now
+        // holds (the server drops the subscriptions of a key when the key is removed). It reacts as soon as
+        // the push arrives, i.e. also in the middle of a gap between two steps.
+        macro_rules! sdk_react {
+            () => {{
+
+                let new: Vec<(String, Vec<String>)> = notifs.borrow().iter().skip(notif_done).map(|x| (x.2.clone(), x.3.clone())).collect();
+                notif_done = notifs.borrow().len();
+                for (key, clients) in new {
+                    let k = match (0..4u8).find(|k| cfg_key(0, 0, *k).build_key() == key) {
+                        Some(k) => k,
+                        None => continue,
+                    };
+                    for cl in clients {
+                        let c: u8 = cl.trim_start_matches("1_conn").parse().unwrap_or(9);
+                        if !subs.contains_key(&(c, k)) {
+                            continue;
+                        }
+                        let md5 = md5_of(&cur.get(&k).cloned().flatten());
+                        let req = json!({"listen": true, "configListenContexts": [{"dataId": data_id(k), "group": "DEFAULT_GROUP", "tenant": "", "md5": md5}]});
+                        let payload = PayloadUtils::build_payload("ConfigBatchListenRequest", req.to_string());
+                        let meta = RequestMeta { connection_id: Arc::new(cl.clone()), client_ip: "10.2.0.9".to_string(), ..Default::default() };
+                        let _ = n.invoker.handle(payload, meta).await;
+                        sim::count("probe.sdk_relisten_after_notify", 1);
+                    }
+                }
+            }};
+        }
+        macro_rules! adv {
+            ($ms:expr) => {{
+                let mut rest: u64 = $ms;
+                loop {
+                    let slice = rest.min(100);
+                    advance(slice).await;
+                    rest -= slice;
+                    sdk_react!();
+                    if rest == 0 {
+                        break;
+                    }
+                }
+            }};
+        }
         for (i, st) in steps.iter().enumerate() {
             sim::event(&format!("step {} {}", i, serde_json::to_string(st).unwrap_or_default()));
             match st {
@@ -2115,7 +2172,7 @@ pub async fn exec_c10(script: Value) -> ExecResult {
                         }
                         sim::event(&format!("listener {} answered {:?}", idx, rec.keys_named));
                     }));
-                    advance(*gap_ms).await;
+                    adv!(*gap_ms);
                 }
                 LStep10::Sub { client, keys, .. } | LStep10::Unsub { client, keys } => {
                     let is_sub = matches!(st, LStep10::Sub { .. });
@@ -2143,7 +2200,7 @@ pub async fn exec_c10(script: Value) -> ExecResult {
                         if is_sub {
                             subs.entry((*client % 3, k)).or_insert((seq, None));
                         } else if let Some((from, _)) = subs.remove(&(*client % 3, k)) {
-                            sub_windows.push((*client % 3, k, from, seq));
+                            sub_windows.push((*client % 3, k, from, seq, sim::now_us()));
                         }
                     }
                 }
@@ -2155,7 +2212,7 @@ pub async fn exec_c10(script: Value) -> ExecResult {
                     let ks: Vec<(u8, u8)> = subs.keys().filter(|(c, _)| *c == *client % 3).cloned().collect();
                     for key in ks {
                         if let Some((from, _)) = subs.remove(&key) {
-                            sub_windows.push((key.0, key.1, from, seq));
+                            sub_windows.push((key.0, key.1, from, seq, sim::now_us()));
                         }
                     }
                 }
@@ -2178,9 +2235,9 @@ pub async fn exec_c10(script: Value) -> ExecResult {
                     let after = md5_of(&Some(content));
                     if after != before {
                         sim::event(&format!("change k{}", k));
-                        changes.push(Change { t_us: sim::now_us(), seq: seq_before, k, md5: after });
+                        changes.push(Change { t_us: sim::now_us(), seq: seq_before, seq_end: sim::ev_seq(), k, md5: after });
                     }
-                    advance(*gap_ms).await;
+                    adv!(*gap_ms);
                 }
                 LStep10::Del { k, gap_ms } => {
                     let k = *k % 4;
@@ -2193,37 +2250,14 @@ pub async fn exec_c10(script: Value) -> ExecResult {
                     cur.insert(k, None);
                     if !before.is_empty() {
                         sim::event(&format!("change k{}", k));
-                        changes.push(Change { t_us: sim::now_us(), seq: seq_before, k, md5: String::new() });
+                        changes.push(Change { t_us: sim::now_us(), seq: seq_before, seq_end: sim::ev_seq(), k, md5: String::new() });
                     }
-                    advance(*gap_ms).await;
+                    adv!(*gap_ms);
                 }
-                LStep10::Advance { ms } => advance(*ms).await,
+                LStep10::Advance { ms } => adv!(*ms),
                 _ => {}
             }
-            // what an SDK does on a change notification: query the key and listen again with the md5 it now
-            // holds (the server drops the subscriptions of a key when the key is removed)
-            if matches!(st, LStep10::Pub { .. } | LStep10::Del { .. }) {
-                let new: Vec<(String, Vec<String>)> = notifs.borrow().iter().skip(notif_done).map(|x| (x.2.clone(), x.3.clone())).collect();
-                notif_done = notifs.borrow().len();
-                for (key, clients) in new {
-                    let k = match (0..4u8).find(|k| cfg_key(0, 0, *k).build_key() == key) {
-                        Some(k) => k,
-                        None => continue,
-                    };
-                    for cl in clients {
-                        let c: u8 = cl.trim_start_matches("1_conn").parse().unwrap_or(9);
-                        if !subs.contains_key(&(c, k)) {
-                            continue;
-                        }
-                        let md5 = md5_of(&cur.get(&k).cloned().flatten());
-                        let req = json!({"listen": true, "configListenContexts": [{"dataId": data_id(k), "group": "DEFAULT_GROUP", "tenant": "", "md5": md5}]});
-                        let payload = PayloadUtils::build_payload("ConfigBatchListenRequest", req.to_string());
-                        let meta = RequestMeta { connection_id: Arc::new(cl.clone()), client_ip: "10.2.0.9".to_string(), ..Default::default() };
-                        let _ = n.invoker.handle(payload, meta).await;
-                        sim::count("probe.sdk_relisten_after_notify", 1);
-                    }
-                }
-            }
+            sdk_react!();
         }
         // every long poll ends by itself (at most 120 s)
         for h in handles {
@@ -2231,12 +2265,17 @@ pub async fn exec_c10(script: Value) -> ExecResult {
                 vfail!(&format!("{}.listener_never_answered", id), "a long-poll listener was not answered within 140 simulated s");
             }
         }
+        if cluster {
+            // the last change still has to apply on the follower
+            adv!(3_000);
+        }
         let end_seq = sim::ev_seq();
         for ((c, k), (from, _)) in subs.clone() {
-            sub_windows.push((c, k, from, end_seq));
+            sub_windows.push((c, k, from, end_seq, u64::MAX));
         }
         // long-poll obligations
-        let slack_us = 700_000u64;
+        // on a follower the change is reported when the committed entry applies there: one more replication round
+        let slack_us = if cluster { 2_500_000u64 } else { 700_000u64 };
         for (li, l) in lrecs.borrow().iter().enumerate() {
             let t1 = match l.t1 {
                 Some(t) => t,
@@ -2258,7 +2297,7 @@ pub async fn exec_c10(script: Value) -> ExecResult {
             }
             // first later change of a listened key
             // (a listener that had already been answered - e.g. woken by the removal of an absent key - owes nothing)
-            let first = changes.iter().filter(|c| c.seq >= l.seq0 && c.seq < l.seq1 && l.items.iter().any(|(k, held)| *k == c.k && *held != c.md5)).next();
+            let first = changes.iter().filter(|c| c.seq >= l.seq0 && c.seq < l.seq1 && (!cluster || c.seq_end <= l.seq1) && l.items.iter().any(|(k, held)| *k == c.k && *held != c.md5)).next();
             let deadline = l.t0 + l.timeout_eff_ms * 1000;
             match first {
                 Some(c) if c.t_us <= deadline => {
@@ -2274,11 +2313,11 @@ pub async fn exec_c10(script: Value) -> ExecResult {
         }
         // subscriber obligations: every change of a subscribed key inside the window reaches the client; none after close
         let notifs = notifs.borrow().clone();
-        for (c, k, from, until) in &sub_windows {
+        for (c, k, from, until, until_t) in &sub_windows {
             let key_s = cfg_key(0, 0, *k).build_key();
             let client = format!("1_conn{}", c);
-            for ch in changes.iter().filter(|ch| ch.k == *k && ch.seq > *from && ch.seq < *until) {
-                let hit = notifs.iter().any(|(_, seq, key, clients)| *key == key_s && *seq >= ch.seq && clients.contains(&client) && *seq <= ch.seq + 400);
+            for ch in changes.iter().filter(|ch| ch.k == *k && ch.seq > *from && ch.seq < *until && (!cluster || ch.t_us + slack_us < *until_t)) {
+                let hit = notifs.iter().any(|(t, seq, key, clients)| *key == key_s && *seq >= ch.seq && clients.contains(&client) && if cluster { *t <= ch.t_us + slack_us } else { *seq <= ch.seq + 400 });
                 vensure!(hit, &format!("{}.subscriber_not_notified", id), "client {} subscribed key {} (events {}..{}); the change at event {} produced no notification for it", client, k, from, until, ch.seq);
                 sim::count("probe.subscriber_notified", 1);
             }
@@ -2287,7 +2326,7 @@ pub async fn exec_c10(script: Value) -> ExecResult {
             for cl in clients {
                 // a notification for a client must fall inside one of its windows for that key
                 let c: u8 = cl.trim_start_matches("1_conn").parse().unwrap_or(9);
-                let ok = sub_windows.iter().any(|(wc, wk, from, until)| *wc == c && cfg_key(0, 0, *wk).build_key() == *key && *seq >= *from && *seq <= *until + 5);
+                let ok = sub_windows.iter().any(|(wc, wk, from, until, _)| *wc == c && cfg_key(0, 0, *wk).build_key() == *key && *seq >= *from && *seq <= *until + 5);
                 vensure!(ok, &format!("{}.notified_after_unsubscribe", id), "client {} was notified about {} at event {} outside of any subscription window", cl, key.replace('\u{2}', "|"), seq);
             }
         }
@@ -2311,7 +2350,9 @@ impl Check for C10 {
     fn generate(&self, seed: u64, _tier: Tier) -> Value {
         let mut rng = Rng::derive(seed, "C10.gen", 0);
         let mut cfg = NCfg::default();
-        cfg.nodes = 1;
+        let mut rc = Rng::derive(seed, "C10.cluster", 0);
+        cfg.nodes = if rc.chance(0.3) { 3 } else { 1 };
+        let at = rc.range(2, 3);
         let n = rng.range(6, 40);
         let mut steps = vec![];
         for _ in 0..n {
@@ -2337,7 +2378,7 @@ impl Check for C10 {
             };
             steps.push(st);
         }
-        json!({"check": "C10", "seed": seed, "cfg": cfg, "steps": steps})
+        json!({"check": "C10", "seed": seed, "cfg": cfg, "steps": steps, "at": at})
     }
     fn execute(&self, script: Value) -> LocalFut<ExecResult> {
         Box::pin(exec_c10(script))
